@@ -375,3 +375,32 @@ Fixpoint xrt_ordered (gen : Z -> list Z -> Z -> Z) (off : Z) (p : xprog) (fuel :
                        xrt_ordered gen off p f (xrt_step gen off p s (e_rid m, b2s (n_tcs (x_n (xs s))) (e_clock m) (e_time m)))
            end
   end.
+
+(* ---- the non-real-time SEMANTICS performed in a given order -------------------------------------------------- *)
+(* The task of routine rid is performed if it is the first of ITS clock's entries (what a real-time clock
+   accepts); the scheduler proper always takes the head of the whole queue (xnrt_order).  The flag becomes
+   false when a step is refused or a task runs at a negative logical time (a timetag could not be packed). *)
+Definition xnrt_step_rid (gen : Z -> list Z -> Z -> Z) (p : xprog) (s : xstate * bool) (rid : nat) : xstate * bool :=
+  let st := fst s in
+  match find_rid rid (n_q (x_n st)) with
+  | None => (st, false)
+  | Some e0 =>
+      match pop_clock (e_clock e0) (n_q (x_n st)) with
+      | None => (st, false)
+      | Some (e, rest) =>
+          if Nat.eqb (e_rid e) rid
+          then (xnrt_wake gen true p (set_n st (set_q (x_n st) rest)) e, snd s && Qle_bool 0 (e_time e))
+          else (st, false)
+      end
+  end.
+Definition xnrt_follow (gen : Z -> list Z -> Z -> Z) (p : xprog) (rids : list nat) : xstate * bool :=
+  fold_left (xnrt_step_rid gen p) rids (xnrt_init p, true).
+(* the order of the non-real-time scheduler *)
+Fixpoint xnrt_order (gen : Z -> list Z -> Z -> Z) (p : xprog) (fuel : nat) (st : xstate) : list nat :=
+  match fuel with
+  | O => []
+  | S f => match n_q (x_n st) with
+           | [] => []
+           | e :: rest => e_rid e :: xnrt_order gen p f (xnrt_wake gen true p (set_n st (set_q (x_n st) rest)) e)
+           end
+  end.
